@@ -297,6 +297,7 @@ static void c_case(uint64_t idx, void *ctx)
 int main(int argc, char **argv)
 {
     mc_init("C08", argc, argv);
+    libast_debug_level = (unsigned) mc_dlevel();        /* --dlevel=N: the whole run at runtime debug level N (default 0) */
     K = (int) mc_arg_int("K", mc_thorough() ? 3 : 2);
     int N = (int) mc_arg_int("N", mc_thorough() ? 4 : 3);
     mc_info("alphabet", "part A: %d item spellings (booleans -x/--long/--long=WORD/--long WORD, bundles -ab/-abf X/-afX, integers, strings incl. empty and spaced values, abstract with/without value, "
